@@ -6,12 +6,13 @@ detect it (seeded/<id>/meta.json: detected_by)."""
 import json, os, subprocess, sys, glob
 os.chdir(os.path.dirname(os.path.dirname(os.path.abspath(__file__))))
 args = sys.argv[1:]
-tier = 'quick'; only = None; checks_override = None
+tier = 'quick'; only = None; checks_override = None; target_only = False
 while args:
     a = args.pop(0)
     if a == '--tier': tier = args.pop(0)
     elif a == '--only': only = []; 
     elif a == '--checks': checks_override = args.pop(0).split(',')
+    elif a == '--target-only': target_only = True
     elif only is not None: only.append(a)
 CHEAP = ['C02', 'C03', 'C04', 'C05', 'C06', 'C07', 'C09', 'C20', 'C14']
 RELATED = {
@@ -26,7 +27,7 @@ for d in sorted(glob.glob('seeded/*/')):
     if only and sid not in only: continue
     meta = json.load(open(d + 'meta.json'))
     prop = meta['breaks_property']
-    checks = checks_override or list(dict.fromkeys([prop] + RELATED.get(prop, [])))
+    checks = [prop] if target_only else (checks_override or list(dict.fromkeys([prop] + RELATED.get(prop, []))))
     out = subprocess.run(['tools/seedrun.sh', d + 'patch.diff', tier] + checks, capture_output=True, text=True).stdout
     det = meta.setdefault('detected_by', {})
     for line in out.splitlines():
